@@ -1369,7 +1369,20 @@ impl Peers {
         state: ProveState,
     ) -> Result<(), Status> {
         if let Some(mut peer) = self.inner.get_mut(&index) {
-            let has_reorg = !state.reorg_last_headers.is_empty();
+            // The previously proved header could also be replaced by the new last headers without
+            // any reorg headers (when the request started from a header before it).
+            let has_reorg = !state.reorg_last_headers.is_empty()
+                || peer
+                    .state
+                    .get_prove_state()
+                    .map(|prev_state| {
+                        let prev_last_header = prev_state.get_last_header().header();
+                        state.last_headers.iter().any(|header| {
+                            header.number() == prev_last_header.number()
+                                && header.hash() != prev_last_header.hash()
+                        })
+                    })
+                    .unwrap_or(false);
             peer.state = peer.state.take().receive_last_state_proof(state)?;
             if has_reorg {
                 peer.latest_block_filter_hashes.clear();
